@@ -42,9 +42,9 @@ def applyOp (E : LexEnv σ τ) (lx : Lexer σ τ) : Op τ → Out τ × Lexer σ
   | .startSublex => (.unit, lx.startSublex E)
   | .intoSublexer => (.unit, lx.intoSublexer E)
   | .spans => (.unit, lx)
-  | .withLineEnding le => (.unit, lx.withLineEnding le)
-  | .withTabWidth t => (.unit, lx.withTabWidth t)
-  | .withMetrics le t => (.unit, lx.withColumnMetrics ⟨le, t⟩)
+  | .withLineEnding le => (.unit, lx.withLineEnding E le)
+  | .withTabWidth t => (.unit, lx.withTabWidth E t)
+  | .withMetrics le t => (.unit, lx.withColumnMetrics E ⟨le, t⟩)
   | .forkBegin => (.unit, lx)
   | .forkEnd => (.unit, lx)
 
